@@ -32,6 +32,16 @@ CLAIMED = {
         "Trusted: exact big-rational rounding oracle (vcore), the harness's own decoder of the packed format; formats are limited to the compiled catalogue (core group).",
         "property-based testing (proptest, one runner per format) against an exact-arithmetic reference oracle",
     ),
+    "C06": (
+        "Per compiled power-of-two format (radix 2/4/8/16/32, the five mixed mantissa/base pairs with two exponent-digit radices, sign/notation flag variants) and float type: finite bit patterns (structured, r^k neighbourhoods, integers, every binade) x {default, forced positional, forced exponent notation} x trim_floats. The bytes are read by an independent strict reader; the written rational must equal m*2^q exactly; the parser of the same format must return the identical bits.",
+        "Trusted: exact rational arithmetic (vcore), the strict reader; forced notation uses exponent breaks +-2000 / +-1.",
+        "property-based testing + per-binade enumeration against an exact-arithmetic oracle and a write/parse round trip",
+    ),
+    "C07": (
+        "Per compiled generic radix format (29 radices plus exponent-digit-radix and flag variants) and float type: finite bit patterns incl. r^k-ulp/r^k/r^k+ulp, integers below 2^53/2^24 (r^k+-1, all-ones, small), x {default, forced positional, forced exponent notation} x trim_floats. Strict reader (digits of the radix only, one point, one exponent, upper case), acceptance by the same-format parser, exact error bound < 2048/256 ulp by big-integer cross-multiplication, exactness for integers below 2^p; the observed ulp-error histogram is reported.",
+        "Trusted: exact rational arithmetic (vcore). One known finding (positional output truncated at ~231 characters for values below radix^-200).",
+        "property-based testing against an exact-arithmetic error-bound oracle",
+    ),
     "C10": (
         "For every valid compiled format x every compiled type x {parse, parse_partial}, in release and in debug-assertion+overflow-check builds: all strings up to length 3 (thorough 4) over the per-format alphabet and generated inputs (valid numbers under insert/delete/duplicate/replace/truncate/splice mutations, arbitrary bytes, inputs padded to KiBs; lossy / no_multi_digit toggled). Every input sits in a guard-page buffer of exactly its length, once flush with the trailing and once with the leading PROT_NONE page, inside a supervised worker process. Monitor: the call returns (catch_unwind, worker survives, 20 s watchdog), count <= len, error index <= len.",
         "Trusted: the kernel's page protection; attribution of a worker death to the last case recorded in a shared mapping. A read outside the slice that stays in mapped memory away from both guards is not visible (ASan/Miri are not part of this check).",
